@@ -55,6 +55,10 @@ class EncModel:
         for enc in ENCS:
             for form in ("flattened", "general"):
                 menu.append(("relay:A128KW" if ENC[enc][0] != "xc20p" else "relay:A256KW", "oct16" if ENC[enc][0] != "xc20p" else "oct32", enc, form, "counter"))
+        # JSON objects whose recipient is added without a header argument at all (the algorithm is named in the protected header)
+        for alg, kind in (("PBES2-HS256+A128KW", "oct20"), ("A256GCMKW", "oct32"), ("ECDH-ES+A128KW", "X25519"), ("A128KW", "oct16")):
+            for form in ("flattened", "general"):
+                menu.append(("no-header-argument:" + alg, kind, "A256GCM", form, "counter"))
         self.MENU = menu
 
     def make(self):
@@ -82,7 +86,16 @@ class EncModel:
         start = seam.begin_call(f"call{st['n']}")
         relay_iv = None
         try:
-            if alg.startswith("relay:"):
+            if alg.startswith("no-header-argument:"):
+                alg = alg.split(":", 1)[1]
+
+                def bare():
+                    cls = jwe.FlattenedJSONEncryption if form == "flattened" else jwe.GeneralJSONEncryption
+                    obj = cls({"alg": alg, "enc": enc}, b"plaintext")
+                    obj.add_recipient(key=key)
+                    return jwe.encrypt_json(obj, None, registry=st["registry"])
+                r = call(bare)
+            elif alg.startswith("relay:"):
                 alg = alg[6:]
                 src = rjwe.encrypt({"alg": alg, "enc": enc}, b"plaintext", [{"jwk": jwk}], form=form, rand=rjwe.Drbg(repr(op).encode()), param_pos="protected")
                 relay_iv = rjwe.parse(src)["iv"]
